@@ -177,6 +177,9 @@ func runConv(tgt string, srcv interface{}, variant string) (o convObs) {
 		if variant == "ref" {
 			opts = []ucfg.Option{ucfg.VarExp}
 			cfg, err = ucfg.NewFrom(map[string]interface{}{"v": "${x}", "x": srcv}, opts...)
+		} else if variant == "splice" {
+			opts = []ucfg.Option{ucfg.VarExp}
+			cfg, err = ucfg.NewFrom(map[string]interface{}{"v": "${x:0}", "x": srcv}, opts...)
 		} else if variant == "set" {
 			cfg = ucfg.New()
 			switch x := srcv.(type) {
@@ -310,7 +313,8 @@ type convCase struct {
 func convVariants(tgt string) []string {
 	// "set": the setting is stored by the typed setter, which keeps the kind verbatim
 	// (NewFrom stores every non-negative Go integer as an unsigned setting)
-	vs := []string{"field", "ptr", "named", "ref", "set"}
+	// "splice": the value reaches the target THROUGH TEXT (${x:0}: rendered, spliced, parsed again)
+	vs := []string{"field", "ptr", "named", "ref", "set", "splice"}
 	switch tgt {
 	case "int64", "int", "uint64", "uint", "float64":
 		vs = append(vs, "getter")
@@ -342,6 +346,9 @@ func convReplay(args []string) int {
 		rep.nontrivial(raw[:len(raw)/3])
 		rep.class("src:" + c.Src)
 		for _, variant := range convVariants(c.Tgt) {
+			if variant == "splice" && c.Src == "str" {
+				continue // a TEXT that goes through a splice is parsed again and becomes a number of whatever kind it spells
+			}
 			o := runConv(c.Tgt, srcv, variant)
 			outcome := convOutcome(c.N, c.Tgt, o)
 			rep.classify(raw, c.Exp.Ideal, c.Exp.Alts, func(exp json.RawMessage) bool { return convAllows(exp, outcome) },
@@ -437,6 +444,9 @@ func convDrive(args []string) int {
 		tgt := tgts[rng.Intn(len(tgts))]
 		vs := convVariants(tgt)
 		variant := vs[rng.Intn(len(vs))]
+		if variant == "splice" && src == "str" {
+			variant = "field"
+		}
 		o := runConv(tgt, srcv, variant)
 		// exactness is judged on the exact rational, not on its class
 		outcome := "err"
